@@ -28,7 +28,11 @@ Items == {B(<<P("A"), R("A")>>), B(<<>>), B(<<R("LEFTSHIFT")>>),
           \* SYN_DROPPED (the kernel overran the client buffer; what follows are genuine records), SYN_MT_REPORT
           Raw(0, 3, 0), Raw(0, 2, 0)}
 Mixed == {s \in SeqsUpTo(Items, MaxItems): s # <<>>}
-Cases == SetToSeq(Singles \cup Batches \cup Mixed)
+\* the consumer of the virtual keyboard does not read: the descriptor is full when the batch is sent (send must not report success for bytes it did not write)
+Full(b) == [batch |-> b, full |-> TRUE]
+SmallBatches == {b \in SeqsUpTo(Small, 2): b # <<>>}
+Stalled == {<<Full(b)>>: b \in SmallBatches} \cup {<<B(<<P("A")>>), Full(b), B(<<R("LEFTSHIFT")>>)>>: b \in SmallBatches}
+Cases == SetToSeq(Singles \cup Batches \cup Mixed \cup Stalled)
 ASSUME ndJsonSerialize(IOEnv.OUT, [i \in 1..Len(Cases) |-> [id |-> i, writes |-> Cases[i]]])
 ASSUME PrintT(<<"GENERATED", Len(Cases)>>)
 VARIABLE x
